@@ -152,7 +152,7 @@ func (e *Engine) solveAll(results []*FuncResult, timeoutS int, workers int, keep
 					}
 				}
 				j.r.Verdicts[j.i] = v
-				if keepDir != "" && (v.Answer != "unsat" && v.Answer != "covered") {
+				if keepDir != "" && ((v.Answer != "unsat" && v.Answer != "covered") || os.Getenv("GVC_KEEP_ALL") != "") {
 					os.MkdirAll(keepDir, 0o755)
 					os.WriteFile(filepath.Join(keepDir, sanitize(shortCallee(o.Fn)+"__"+o.Name)+".smt2"), []byte(text), 0o644)
 				}
